@@ -8,6 +8,7 @@ import Rpft.Props.C07
 import Rpft.Lemmas.RowFlow
 import Rpft.Lemmas.RowShort
 import Rpft.Lemmas.RowMixed
+import Rpft.Lemmas.RowEnc
 set_option linter.unusedSimpArgs false
 set_option linter.unusedVariables false
 namespace Rpft.Props.C09
@@ -300,19 +301,121 @@ theorem short_row_needs_flat_star_cells :
 
 /-! ### positional vs keyword records -/
 
-/-- general statement: every positional / keyword / mixed encoding of a record (of any
-field types, at any nesting) decodes to the same value when no kwarg ambiguity arises.
-Proved below: records of basic-typed fields — all-positional (`positional_eq_keyword_partial`)
-and mixed positional / keyword entries in any order (`mixed_eq_keyword`).  Not proved:
-entries that are themselves structured (a sub-record or a list given positionally inside a
-record cell `v1|x;y`, a list of records in one cell `a;b|c;d`). -/
-def positional_eq_keyword_full : Prop :=
-  ∀ (ty : Ty) (v : Val) (pos kw : Cell.Nested) (tp tk : Str),
-    reprOk false ty v = true → toNested ty v = .ok kw →
-    joinPacked kw = .ok tk → joinPacked pos = .ok tp →
-    -- `pos` = values of the leading fields in order, recursively; no entry and no 2-entry
-    -- record of `pos` is a (field name, value) pair
-    readCell ty tp = readCell ty tk
+def kwSub0 : List Field :=
+  [("word".toList, .str, some (.str [])), ("number".toList, .int, some (.int 0))]
+
+/-- **Positional = keyword = mixed, in general** (the statement that was
+`positional_eq_keyword_full`): `Enc ty v pv` says that the parsed cell value `pv` — strings
+and nested lists, what `CellParser.parse` returns or what a `*` column / spread layout
+delivers — is AN encoding of `v : ty`: lists element by element (or a single value), records
+by entries that are each positional (at the index of their field) or `key;value` (any field,
+the key remapped by `header_name_to_field_name`), every field at most once and the others at
+their defaults, entries being encodings of the field values in turn — to any depth (a
+sub-record or a list given positionally inside a record, a list of records, …); with the
+side condition that no positional entry and not the whole value looks like a `key;value` pair
+(the keyword-first rule of `assign_value`, finding F-C09-a).  Any two encodings of the same
+value decode equally — to the value.  By rule induction on `Enc`. -/
+theorem positional_eq_keyword {ty : Ty} {v : Val} {pv₁ pv₂ : PV}
+    (h₁ : Enc ty v pv₁) (h₂ : Enc ty v pv₂) :
+    decode ty pv₁ = decode ty pv₂ ∧ decode ty pv₁ = .ok v :=
+  enc_decode_eq h₁ h₂
+
+/-- the same on cell texts -/
+theorem positional_eq_keyword_cells {ty : Ty} {v : Val} {t₁ t₂ : Str} {pv₁ pv₂ : PV}
+    (c₁ : cellParse t₁ = .ok pv₁) (c₂ : cellParse t₂ = .ok pv₂)
+    (h₁ : Enc ty v pv₁) (h₂ : Enc ty v pv₂) :
+    readCell ty t₁ = readCell ty t₂ ∧ readCell ty t₁ = .ok v := by
+  have := enc_decode_eq h₁ h₂
+  have e₁ : readCell ty t₁ = decode ty pv₁ := by
+    simp only [readCell, decode, c₁]; cases assignValue ty pv₁ <;> rfl
+  have e₂ : readCell ty t₂ = decode ty pv₂ := by
+    simp only [readCell, decode, c₂]; cases assignValue ty pv₂ <;> rfl
+  rw [e₁, e₂]
+  exact this
+
+def exOuter : List Field :=
+  [("a".toList, .str, some (.str [])),
+   ("s".toList, plainTop kwSub0, some (.model [("word".toList, .str []), ("number".toList, .int 0)])),
+   ("xs".toList, .list .str, some (.list []))]
+def exOuterVal : Val :=
+  .model [("a".toList, .str "v".toList),
+    ("s".toList, .model [("word".toList, .str "x".toList), ("number".toList, .int 7)]),
+    ("xs".toList, .list [])]
+
+/-- non-vacuity of `positional_eq_keyword`: `Outer(a="v", s=Sub(word="x", number=7))` — the
+sub-record given positionally inside the positional record (`v|x;7`) and given by keyword with
+its own fields by keyword (`s;(number;7|word;x)|a;v`, three levels: not a cell, but what
+spread `*` columns deliver) are both encodings -/
+example :
+    Enc (plainTop exOuter) exOuterVal
+      (.list [.atom "v".toList, .list [.atom "x".toList, .atom "7".toList]]) ∧
+    Enc (plainTop exOuter) exOuterVal
+      (.list [.list [.atom "s".toList, .list [.list [.atom "number".toList, .atom "7".toList],
+        .list [.atom "word".toList, .atom "x".toList]]], .list [.atom "a".toList, .atom "v".toList]]) := by
+  let fA : Field := ("a".toList, .str, some (.str []))
+  let fS : Field := ("s".toList, plainTop kwSub0,
+    some (.model [("word".toList, .str []), ("number".toList, .int 0)]))
+  let fW : Field := ("word".toList, .str, some (.str []))
+  let fN : Field := ("number".toList, .int, some (.int 0))
+  let sv : Val := .model [("word".toList, .str "x".toList), ("number".toList, .int 7)]
+  have hW : Enc Ty.str (.str "x".toList) (.atom "x".toList) := Enc.basic (v := .str "x".toList) rfl (by decide)
+  have hN : Enc Ty.int (.int 7) (.atom "7".toList) := Enc.basic (v := .int 7) rfl (by decide)
+  have hA : Enc Ty.str (.str "v".toList) (.atom "v".toList) := Enc.basic (v := .str "v".toList) rfl (by decide)
+  -- the sub-record, positionally and by keyword
+  have hSpos : Enc (plainTop kwSub0) sv (.list [.atom "x".toList, .atom "7".toList]) :=
+    Enc.model (sfs := kwSub0) (h2f := []) (f2h := [])
+      [⟨false, [], fW, .str "x".toList, .atom "x".toList⟩, ⟨false, [], fN, .int 7, .atom "7".toList⟩]
+      rfl (by decide) (by intro e he; simp at he; rcases he with rfl | rfl <;> simp [kwSub0, fW, fN])
+      ⟨fun _ => rfl, fun _ => rfl, trivial⟩ (by decide)
+      (by intro e he; simp at he; rcases he with rfl | rfl; exact hW; exact hN)
+      (by intro e he; simp at he; rcases he with rfl | rfl <;> simp)
+      (by intro e he; simp at he; rcases he with rfl | rfl <;> simp [tryKwarg])
+      (by decide)
+      (by intro p hp; simp [kwSub0] at hp; rcases hp with rfl | rfl
+          · exact Or.inl ⟨⟨false, [], fW, .str "x".toList, .atom "x".toList⟩, by simp, rfl⟩
+          · exact Or.inl ⟨⟨false, [], fN, .int 7, .atom "7".toList⟩, by simp, rfl⟩)
+  have hSkw : Enc (plainTop kwSub0) sv (.list [.list [.atom "number".toList, .atom "7".toList],
+      .list [.atom "word".toList, .atom "x".toList]]) :=
+    Enc.model (sfs := kwSub0) (h2f := []) (f2h := [])
+      [⟨true, "number".toList, fN, .int 7, .atom "7".toList⟩, ⟨true, "word".toList, fW, .str "x".toList, .atom "x".toList⟩]
+      rfl (by decide) (by intro e he; simp at he; rcases he with rfl | rfl <;> simp [kwSub0, fW, fN])
+      ⟨fun h => by simp at h, fun h => by simp at h, trivial⟩ (by decide)
+      (by intro e he; simp at he; rcases he with rfl | rfl; exact hN; exact hW)
+      (by intro e he; simp at he; rcases he with rfl | rfl <;> intro _ <;> rfl)
+      (by intro e he; simp at he; rcases he with rfl | rfl <;> simp)
+      (by decide)
+      (by intro p hp; simp [kwSub0] at hp; rcases hp with rfl | rfl
+          · exact Or.inl ⟨⟨true, "word".toList, fW, .str "x".toList, .atom "x".toList⟩, by simp, rfl⟩
+          · exact Or.inl ⟨⟨true, "number".toList, fN, .int 7, .atom "7".toList⟩, by simp, rfl⟩)
+  constructor
+  · exact Enc.model (sfs := exOuter) (h2f := []) (f2h := [])
+      [⟨false, [], fA, .str "v".toList, .atom "v".toList⟩,
+       ⟨false, [], fS, sv, .list [.atom "x".toList, .atom "7".toList]⟩]
+      rfl (by decide) (by intro e he; simp at he; rcases he with rfl | rfl <;> simp [exOuter, exOuterVal, fA, fS, sv])
+      ⟨fun _ => rfl, fun _ => rfl, trivial⟩ (by decide)
+      (by intro e he; simp at he; rcases he with rfl | rfl; exact hA; exact hSpos)
+      (by intro e he; simp at he; rcases he with rfl | rfl <;> simp)
+      (by intro e he; simp at he; rcases he with rfl | rfl <;> intro _ <;> decide)
+      (by decide)
+      (by intro p hp; simp [exOuter, exOuterVal] at hp; rcases hp with rfl | rfl | rfl
+          · exact Or.inl ⟨⟨false, [], fA, .str "v".toList, .atom "v".toList⟩, by simp, rfl⟩
+          · exact Or.inl ⟨⟨false, [], fS, sv, .list [.atom "x".toList, .atom "7".toList]⟩, by simp, rfl⟩
+          · exact Or.inr rfl)
+  · exact Enc.model (sfs := exOuter) (h2f := []) (f2h := [])
+      [⟨true, "s".toList, fS, sv, .list [.list [.atom "number".toList, .atom "7".toList],
+          .list [.atom "word".toList, .atom "x".toList]]⟩,
+       ⟨true, "a".toList, fA, .str "v".toList, .atom "v".toList⟩]
+      rfl (by decide) (by intro e he; simp at he; rcases he with rfl | rfl <;> simp [exOuter, exOuterVal, fA, fS, sv])
+      ⟨fun h => by simp at h, fun h => by simp at h, trivial⟩ (by decide)
+      (by intro e he; simp at he; rcases he with rfl | rfl; exact hSkw; exact hA)
+      (by intro e he; simp at he; rcases he with rfl | rfl <;> intro _ <;> rfl)
+      (by intro e he; simp at he; rcases he with rfl | rfl <;> simp)
+      (by decide)
+      (by intro p hp; simp [exOuter, exOuterVal] at hp; rcases hp with rfl | rfl | rfl
+          · exact Or.inl ⟨⟨true, "a".toList, fA, .str "v".toList, .atom "v".toList⟩, by simp, rfl⟩
+          · exact Or.inl ⟨⟨true, "s".toList, fS, sv, .list [.list [.atom "number".toList, .atom "7".toList],
+              .list [.atom "word".toList, .atom "x".toList]]⟩, by simp, rfl⟩
+          · exact Or.inr rfl)
 
 /-- **Positional = keyword** for records of basic-typed fields: the cell `v1|…|vm` with the
 values of the first `m` fields (the remaining fields at their defaults) decodes to the same
@@ -458,6 +561,17 @@ theorem mixed_needs_UnambiguousM :
     readsAs (plainTop kwSub) "number|number;5".toList
       (.model [("word".toList, .str "number".toList), ("number".toList, .int 5)]) = false := by
   decide +kernel
+
+/-- the entry-level side condition is needed (finding F-C09-a again): in `v|a;y` the entry
+`a;y`, meant as the sub-record `Sub(word="a", number=…)` given positionally, is taken as the
+keyword argument `a="y"` of the outer record; the cell `v|x;7` of the example decodes as
+intended -/
+theorem positional_entry_needs_unambiguous :
+    readsAs (plainTop exOuter) "v|x;7".toList exOuterVal = true ∧
+    readsAs (plainTop exOuter) "v|a;7".toList
+      (.model [("a".toList, .str "v".toList),
+        ("s".toList, .model [("word".toList, .str "a".toList), ("number".toList, .int 7)]),
+        ("xs".toList, .list [])]) = false := by decide +kernel
 
 /-! ### column order -/
 
